@@ -238,6 +238,8 @@ def _run_cmd_case(ctx, case) -> F.Outcome:
         return _run_whitelist_lookalike(ctx, case)
     if case[1] == "whitelist-lifecycle":
         return _run_whitelist_lifecycle(ctx, case)
+    if case[1] == "long-tail":
+        return _run_long_tail(ctx, case)
     _, name, text, mode = case
     day = H.DEFAULT_DAY
     out = F.Outcome()
@@ -363,6 +365,48 @@ def _run_whitelist_lookalike(ctx, case) -> F.Outcome:
     return out
 
 
+def _run_long_tail(ctx, case) -> F.Outcome:
+    """A long indexed page (well over 8 KiB) is changed only at its very end: a syntax error
+    there must be refused by db reindex, a valid new note there must be indexed."""
+    _, _, what = case
+    day = H.DEFAULT_DAY
+    out = F.Outcome()
+    sfx = "0123456789ABCDEFGHJKLMNPRTUVWXYZ"
+    long_page = "# LONG\n\n" + "".join(
+        f"- 240601#{sfx[(k // 30) % 30]}{sfx[k % 30]} journal entry number {k} with some more words to make the line long enough\n"
+        for k in range(150))
+    zd = Z.make_zdir({"good.zo": "# good\n\n- 240102#G1 good note\n", "long.zo": long_page})
+    problems = []
+    try:
+        r = Z.db_create(zd, day)
+        if not Z.cli_ok(r):
+            raise H.HarnessError("long-tail setup failed: " + r.err[-300:])
+        n0 = len(IR.read_index(zd)["pages"]["long.zo"]["notes"])
+        tail = "-- broken line at the very end\n" if what == "broken" else "- 240602#ZZ a valid note added at the very end\n"
+        (zd / "long.zo").write_text(long_page + tail)
+        r = Z.db_reindex(zd, day)
+        n1 = len(IR.read_index(zd)["pages"].get("long.zo", {}).get("notes", []))
+        if what == "broken":
+            if Z.cli_ok(r):
+                problems.append(("reindex-accepted-broken-page", {"notes_before": n0, "notes_after": n1, "stdout": r.out[-200:]}))
+            elif n1 != n0:
+                problems.append(("refused-page-no-longer-indexed-as-it-was", {"notes_before": n0, "notes_after": n1}))
+        else:
+            if not Z.cli_ok(r):
+                problems.append(("reindex-refused-clean-page", {"err": r.err[-300:]}))
+            elif n1 != n0 + 1:
+                problems.append(("clean-page-notes-not-all-indexed-by-reindex", {"expected": n0 + 1, "observed": n1}))
+        out.obs = H.digest([what, [p[0] for p in problems]])
+        out.nontrivial = H.digest(case)
+        if problems:
+            out.ok = False
+            out.sig = "command:" + problems[0][0] + ":long-page-changed-at-its-end"
+            out.detail = {"page_bytes": len(long_page), "appended": tail, "problem": problems[0][1]}
+    finally:
+        Z.drop(zd)
+    return out
+
+
 def _run_whitelist_lifecycle(ctx, case) -> F.Outcome:
     """broken+whitelisted -> (still broken: accepted, flagged, no notes) -> fixed:
     leaves the whitelist, all notes indexed -> broken again: refused."""
@@ -473,9 +517,11 @@ def _cases(ctx):
             flat.append(["cmd", "whitelist-lookalike", wl_path, new_path, mode])
     for mode in ("create", "reindex"):
         flat.append(["cmd", "whitelist-lifecycle", mode])
+    for what in ("broken", "valid"):
+        flat.append(["cmd", "long-tail", what])
     return flat, {"deviation0": len(SEEDS), "deviation1": n_dev1 - len(SEEDS), "deviation2": n_dev2,
                     "token_strings_and_digit_words": n_texts - n_dev1 - n_dev2,
-                    "command_level": sum(2 if n.startswith("unusual-item:") else 3 for n, _ in CMD_TEXTS) + 14, "sigma": len(sigma), "seeds_edited": len(seeds)}
+                    "command_level": sum(2 if n.startswith("unusual-item:") else 3 for n, _ in CMD_TEXTS) + 16, "sigma": len(sigma), "seeds_edited": len(seeds)}
 
 
 def run(ctx: F.Ctx):
